@@ -910,3 +910,140 @@ Proof.
         -- rewrite (proj1 (lg_rel _ _ _ L) d), (proj1 (lg_rel _ _ _ L') d). reflexivity.
         -- rewrite (proj1 (lg_pip _ _ _ L) d), (proj1 (lg_pip _ _ _ L') d). reflexivity.
 Qed.
+
+(* ---------- PodGroups ---------- *)
+
+Lemma rep_job_default c j :
+  Rep c -> j <> no_job -> JobRep (c_heap c) j (cj_job (default (new_cjob j) (c_jobs c !! j))).
+Proof.
+  intros R Hjn. destruct (c_jobs c !! j) as [x|] eqn:E; simpl; [exact (rp_jobs c R j x E)|].
+  assert (Hno : forall i u, c_heap c !! i = Some u -> t_job u <> j).
+  { intros i u Hu Huj. destruct (rp_jobs_ex c R i u Hu) as [y Hy]; [congruence|]. congruence. }
+  split; [reflexivity| |split|split].
+  - intros i. simpl. split; [set_solver|]. intros (u & Hu & Huj). exfalso. exact (Hno i u Hu Huj).
+  - intros d. rewrite amt_empty. symmetry. apply tsum_none. intros i u Hu. unfold in_j. rewrite bool_decide_eq_false. exact (Hno i u Hu).
+  - intros _ i u Hu. unfold in_j. rewrite bool_decide_eq_false. exact (Hno i u Hu).
+  - intros d. rewrite amt_empty. symmetry. apply tsum_none. intros i u Hu. unfold in_j.
+    rewrite bool_decide_eq_false_2; [reflexivity|exact (Hno i u Hu)].
+  - intros _ i u Hu. unfold in_j. rewrite bool_decide_eq_false_2; [reflexivity|exact (Hno i u Hu)].
+Qed.
+
+Lemma job_rep_with T j J m s : JobRep T j J -> JobRep T j (job_with J m s).
+Proof. intros [A B C D]. split; simpl; assumption. Qed.
+
+Lemma rep_insert_job c j cj' :
+  Rep c -> j <> no_job -> JobRep (c_heap c) j (cj_job cj') -> Rep (with_jobs c (<[j := cj']> (c_jobs c))).
+Proof.
+  intros [A B C D E F] Hjn HJ. split; simpl; auto.
+  - rewrite lookup_insert_ne by congruence. exact B.
+  - intros j' x Hx. destruct (decide (j' = j)) as [->|Hne].
+    + rewrite lookup_insert in Hx. injection Hx as <-. exact HJ.
+    + rewrite lookup_insert_ne in Hx by congruence. exact (C j' x Hx).
+  - intros i t Ht Hnj. destruct (D i t Ht Hnj) as [x Hx].
+    destruct (decide (t_job t = j)) as [->|Hne]; [rewrite lookup_insert; eauto|].
+    rewrite lookup_insert_ne by congruence. eauto.
+Qed.
+
+(* Theorem (PodGroup add / update / delete): the ledgers and the membership are
+   untouched, whether or not the job's pods arrived first *)
+Theorem set_pod_group_inv c g : Rep c -> g_id g <> no_job -> Rep (set_pod_group c g).
+Proof.
+  intros R Hjn. unfold set_pod_group. apply rep_insert_job; auto. simpl.
+  pose proof (rep_job_default c (g_id g) R Hjn) as HJ.
+  destruct (cj_pg (default (new_cjob (g_id g)) (c_jobs c !! g_id g))); repeat apply job_rep_with; exact HJ.
+Qed.
+
+Theorem delete_pod_group_inv c j : Rep c -> Rep (delete_pod_group c j).
+Proof.
+  intros R. unfold delete_pod_group. destruct (c_jobs c !! j) as [cj|] eqn:E; [|exact R].
+  assert (Hjn : j <> no_job) by (intros ->; rewrite (rp_nojob c R) in E; discriminate).
+  unfold delete_job. eapply rep_frame; [| | |apply (rep_insert_job c j (mkCJob (job_with (cj_job cj) (j_min (cj_job cj)) (rebuild_subs (c_heap c) (cj_job cj))) false (cj_pguid cj) (cj_queue cj)) R Hjn)]; try reflexivity.
+  simpl. apply job_rep_with. exact (rp_jobs c R j cj E).
+Qed.
+
+(* ---------- histories of pod notifications and node removals ---------- *)
+
+Lemma rep_empty : Rep empty_cache.
+Proof.
+  split; simpl.
+  - intros i t H. rewrite lookup_empty in H. discriminate.
+  - apply lookup_empty.
+  - intros j cj H. rewrite lookup_empty in H. discriminate.
+  - intros i t H. rewrite lookup_empty in H. discriminate.
+  - intros n N H. rewrite lookup_empty in H. discriminate.
+  - intros i t n H. rewrite lookup_empty in H. discriminate.
+Qed.
+
+Section Histories.
+Variable eps : Z.
+
+Definition Inv (c : cache) : Prop := Rep c /\ Synced eps c /\ store_ok c.
+
+(* the API rules, stated against the informer store the cache was fed from *)
+Definition step_ok (c : cache) (e : event) : Prop :=
+  match e with
+  | EPod p => pod_ok p /\ forall old, c_store c !! p_id p = Some old -> upd_ok old p
+  | EPodDel _ | ENodeDel _ | EQueue _ | EQueueDel _ | EPGDel _ => True
+  | EPG g => g_id g <> no_job
+  | _ => False
+  end.
+
+Fixpoint hist_ok (c : cache) (h : list event) : Prop :=
+  match h with
+  | [] => True
+  | e :: r => step_ok c e /\ hist_ok (handle eps c e) r
+  end.
+
+Lemma inv_empty : Inv empty_cache.
+Proof.
+  split; [exact rep_empty|]. split.
+  - unfold Synced. simpl. rewrite fmap_empty. reflexivity.
+  - intros i p H. simpl in H. rewrite lookup_empty in H. discriminate.
+Qed.
+
+Theorem step_inv c e : Inv c -> step_ok c e -> Inv (handle eps c e).
+Proof.
+  intros (R & S & So) Hok. destruct e; simpl in Hok; try contradiction.
+  - destruct Hok as [Hp Hu]. destruct (handle_pod_inv eps c p R S So Hp Hu) as (A & B & C & _). split; auto.
+  - destruct (handle_pod_del_inv eps c id R S So) as (A & B & C & _). split; auto.
+  - assert (E : c_heap (remove_node c id) = c_heap c /\ c_store (remove_node c id) = c_store c).
+    { unfold remove_node. destruct (c_nodes c !! id); [case_bool_decide|]; split; reflexivity. }
+    destruct E as [E1 E2].
+    split; [exact (remove_node_inv c id R)|]. split; [unfold Synced; simpl; rewrite E1, E2; exact S|].
+    unfold store_ok. simpl. rewrite E2. exact So.
+  - split; [exact (set_pod_group_inv c g R Hok)|]. split; [exact S|exact So].
+  - assert (E : c_heap (delete_pod_group c id) = c_heap c /\ c_store (delete_pod_group c id) = c_store c).
+    { unfold delete_pod_group. destruct (c_jobs c !! id); split; reflexivity. }
+    destruct E as [E1 E2].
+    split; [exact (delete_pod_group_inv c id R)|]. split; [unfold Synced; simpl; rewrite E1, E2; exact S|].
+    unfold store_ok. simpl. rewrite E2. exact So.
+  - split; [apply (rep_frame c); auto|]. split; [exact S|exact So].
+  - split; [apply (rep_frame c); auto|]. split; [exact S|exact So].
+Qed.
+
+(* Theorem: after ANY history of pod notifications (in any order across pods,
+   pods naming nodes the cache has never seen), node removals and queue events
+   that respects the API rules, the invariant holds and the cache holds exactly
+   the tasks of the last delivered pod versions *)
+Theorem history_inv h : forall c, Inv c -> hist_ok c h -> Inv (run eps c h).
+Proof.
+  induction h as [|e r IH]; intros c HI Hok; [exact HI|].
+  destruct Hok as [H1 H2]. simpl. apply IH; [apply step_inv; auto|exact H2].
+Qed.
+
+(* Corollary (convergence of the pod part of the view): two such histories that
+   deliver the same final pod versions end with the same tasks, hence (by
+   [view_determined]) with the same job membership and sums and the same tasks
+   on every node entry *)
+Theorem histories_agree h h' :
+  hist_ok empty_cache h -> hist_ok empty_cache h' ->
+  c_store (run eps empty_cache h) = c_store (run eps empty_cache h') ->
+  c_heap (run eps empty_cache h) = c_heap (run eps empty_cache h').
+Proof.
+  intros H H' Hs.
+  destruct (history_inv h empty_cache inv_empty H) as (_ & S & _).
+  destruct (history_inv h' empty_cache inv_empty H') as (_ & S' & _).
+  unfold Synced in *. rewrite S, S', Hs. reflexivity.
+Qed.
+
+End Histories.
